@@ -8,6 +8,8 @@
 mod c12;
 mod c14;
 mod c15;
+mod ipa;
+mod c17;
 mod kg;
 mod linf;
 mod real;
@@ -16,6 +18,7 @@ mod spec;
 mod symcs;
 mod syme;
 mod symf;
+mod symg;
 
 use std::collections::HashMap;
 
@@ -330,6 +333,8 @@ fn main() {
         "kzg" => c14::run(&a),
         "batch" => c15::run(&a),
         "keygen" => kg::run(&a),
+        "ipa" => ipa::run(&a),
+        "params" => c17::run(&a),
         "fft" | "domain" | "kate" | "interp" | "lrange" => c12::run(&sc, &a),
         _ => panic!("unknown scenario {sc}"),
     };
